@@ -289,10 +289,23 @@ func calleeShort(k string) string {
 // modLocs evaluates the modifies clauses of ct in state pre and returns, per
 // heap variable, the references whose cells may change.
 func (fc *FnCtx) modLocs(pre *State, env *SpecEnv, ct *Contract) (map[string][]Term, map[string]bool) {
-	locs := map[string][]Term{}
 	whole := map[string]bool{}
+	locs := fc.locsOfExprs(pre, env, ct.Modifies, ct.ModSrc, ct.Pos)
+	for _, n := range ct.ModAll {
+		if hv, ok := fc.E.heapByName(fc, ct.PkgPath, n); ok {
+			whole[hv.Name] = true
+		}
+	}
+	return locs, whole
+}
+
+// locsOfExprs evaluates location expressions (x.f, elems(s), entries(m)) in
+// state pre: per heap variable, the references whose cells may change.
+func (fc *FnCtx) locsOfExprs(pre *State, env *SpecEnv, exprs []SExpr, srcs []string, pos string) map[string][]Term {
+	locs := map[string][]Term{}
 	penv := *env
 	penv.Cur = pre
+	ct := &Contract{Modifies: exprs, ModSrc: srcs, Pos: pos}
 	for i, m := range ct.Modifies {
 		var v TVal
 		func() {
@@ -336,12 +349,7 @@ func (fc *FnCtx) modLocs(pre *State, env *SpecEnv, ct *Contract) (map[string][]T
 			}
 		}()
 	}
-	for _, n := range ct.ModAll {
-		if hv, ok := fc.E.heapByName(fc, ct.PkgPath, n); ok {
-			whole[hv.Name] = true
-		}
-	}
-	return locs, whole
+	return locs
 }
 
 func (fc *FnCtx) frameFormula(pre, post *State, hv HeapVar, refs []Term) Term {
